@@ -6,7 +6,7 @@
 From Coq Require Import List ZArith NArith String Bool Lia.
 From SCC Require Import Base.Sexp Lang.SynUtil Lang.FunSyn Lang.FunTy Lang.CoreSyn Lang.AxSize Lang.CoreSize.
 From SCC Require Import Model.Fun2Core Model.SizeFun Proof.Fun2CoreProof Proof.Fun2CoreTfv Proof.Fun2CoreInv
-     Proof.SizeLin Proof.SizeGen Proof.SizeFun2CoreFv Proof.SizeFun2Core.
+     Proof.Fun2CoreProg Proof.SizeLin Proof.SizeGen Proof.SizeFun2CoreFv Proof.SizeFun2Core Proof.SizeFun2CoreEntry.
 Import ListNotations.
 Open Scope string_scope.
 Open Scope list_scope.
@@ -63,6 +63,29 @@ Section Prog.
     pose proof (k_le_Q (Ud d)) as Hk. fold (Qd d) in Hk. lia.
   Qed.
 
+  (* the same with the slack that pays for the entry point when main is called: 9 units per definition and per
+     weighted parameter *)
+  Lemma two_mul_Q : forall U x, 10 * x <= x * Q k U.
+  Proof. intros U x. rewrite (N.mul_comm 10 x). apply N.mul_le_mono_l. rewrite Q_eq. unfold L. lia. Qed.
+  Lemma def_size_slack : forall d ul g ul', compile_def false d codata ul = Ok (g, ul') ->
+    cz_defs k g + 9 * (1 + k * len (fdctx d)) <= fz_def k d * Qd d.
+  Proof.
+    intros d ul g ul' H. unfold compile_def, run_def_body in H.
+    destruct (fterm_type (fdbody d)) as [bty|]; [|discriminate].
+    match type of H with rbind ?e _ = _ => destruct e as [[[a body] st]|e0] eqn:E; [|discriminate] end.
+    cbn [rbind] in H. inversion H; subst; clear H.
+    minv E. minv E. apply mret_inv in E. destruct E as [Ea Eb]. inversion Ea; subst; clear Ea.
+    pose proof (fresh_covar_lz k _ _ _ E0) as Hl. unfold lz in Hl. cbn [st_lifted cz_defs] in Hl.
+    pose proof (sz_wc codata (fdname d) k (Ud d) (fdbody d) _ _ _ _ E1 (cok_var _ _ _ _) (Ud_incl d)) as Hs.
+    unfold lz in Hs. rewrite Hl in Hs. cbn [cz_term] in Hs.
+    cbn [cz_defs]. unfold cz_def at 1. cbn [cdctx cdbody]. rewrite len_app, len_cons, len_nil. unfold compile_ctx. rewrite len_map.
+    unfold fz_def. fold (Qd d) in *. unfold P in Hs. fold (Qd d) in Hs.
+    pose proof (two_mul_Q (Ud d) (k * len (fdctx d))) as Hm. fold (Qd d) in Hm.
+    assert (Hq : 10 + 2 * k <= Qd d).
+    { unfold Qd. rewrite Q_eq. unfold kL, L. nia. }
+    lia.
+  Qed.
+
   Lemma main_size : forall d ul g ul', compile_main false d codata ul = Ok (g, ul') ->
     cz_defs k g <= fz_def k d * Qd d.
   Proof.
@@ -82,16 +105,53 @@ Section Prog.
     assert (Hq : 2 <= Qd d) by (unfold Qd; rewrite Q_eq; lia). lia.
   Qed.
 
-  Lemma defs_size : forall defs ul front back res,
-    compile_defs false false defs codata ul front back = Ok res ->
+  (* the definitions that come first: compile_main of main, or (main is called) the entry point and main compiled by
+     compile_def.  The entry point costs 5 + (1 + k) * #params units: paid by the slack of main's own bound, except - for
+     node counts, k = 0 - the #params variables of the call *)
+  Lemma main_group_size : forall called d ul g ul', compile_main_group false called d codata ul = Ok (g, ul') ->
+    cz_defs k g <= fz_def k d * Qd d + (if called then len (fdctx d) else 0).
+  Proof.
+    intros called d ul g ul' H.
+    destruct (compile_main_group_inv _ _ _ _ _ _ _ H) as [[_ Hm]|[Hc [nm [e [ule [m [_ [He [Hm ->]]]]]]]]].
+    - pose proof (main_size _ _ _ _ Hm). lia.
+    - rewrite andb_true_r in Hc. subst called. rewrite cz_defs_app, (entry_size k _ _ _ _ _ _ He).
+      pose proof (def_size_slack _ _ _ _ Hm). lia.
+  Qed.
+  Lemma main_group_size_weighted : forall called d ul g ul', 1 <= k ->
+    compile_main_group false called d codata ul = Ok (g, ul') -> cz_defs k g <= fz_def k d * Qd d.
+  Proof.
+    intros called d ul g ul' Hk H.
+    destruct (compile_main_group_inv _ _ _ _ _ _ _ H) as [[_ Hm]|[Hc [nm [e [ule [m [_ [He [Hm ->]]]]]]]]].
+    - exact (main_size _ _ _ _ Hm).
+    - rewrite cz_defs_app, (entry_size k _ _ _ _ _ _ He).
+      pose proof (def_size_slack _ _ _ _ Hm). assert (len (fdctx d) <= k * len (fdctx d)) by nia. lia.
+  Qed.
+
+  Lemma defs_size : forall called defs ul front back res,
+    compile_defs false called defs codata ul front back = Ok res ->
+    cz_defs k res <= cz_defs k front + cz_defs k back + nsum (fun d => fz_def k d * Qd d) defs
+                     + (if called then nsum main_params defs else 0).
+  Proof.
+    intros called. induction defs as [|d r IH]; intros ul front back res H; cbn [compile_defs] in H.
+    - inversion H; subst. rewrite cz_defs_app, cz_defs_rev_append. cbn [cz_defs nsum]. destruct called; lia.
+    - rewrite !nsum_cons. unfold main_params at 1. destruct (String.eqb (fdname d) "main").
+      + destruct (compile_main_group false called d codata ul) as [g|e] eqn:E; [|discriminate]. cbn [rbind] in H.
+        apply IH in H. rewrite cz_defs_app in H. destruct g as [g ul']. pose proof (main_group_size _ _ _ _ _ E). cbn [fst] in H.
+        destruct called; lia.
+      + destruct (compile_def false d codata ul) as [g|e] eqn:E; [|discriminate]. cbn [rbind] in H.
+        apply IH in H. rewrite cz_defs_rev_append in H. destruct g as [g ul']. pose proof (def_size _ _ _ _ E). cbn [fst] in H.
+        destruct called; lia.
+  Qed.
+  Lemma defs_size_weighted : forall called defs ul front back res, 1 <= k ->
+    compile_defs false called defs codata ul front back = Ok res ->
     cz_defs k res <= cz_defs k front + cz_defs k back + nsum (fun d => fz_def k d * Qd d) defs.
   Proof.
+    intros called defs ul front back res Hk. revert ul front back res.
     induction defs as [|d r IH]; intros ul front back res H; cbn [compile_defs] in H.
-    2: unfold compile_main_group in H; cbn [andb] in H.
     - inversion H; subst. rewrite cz_defs_app, cz_defs_rev_append. cbn [cz_defs nsum]. lia.
     - rewrite nsum_cons. destruct (String.eqb (fdname d) "main").
-      + destruct (compile_main false d codata ul) as [g|e] eqn:E; [|discriminate]. cbn [rbind] in H.
-        apply IH in H. rewrite cz_defs_app in H. destruct g as [g ul']. pose proof (main_size _ _ _ _ E). cbn [fst] in H. lia.
+      + destruct (compile_main_group false called d codata ul) as [g|e] eqn:E; [|discriminate]. cbn [rbind] in H.
+        apply IH in H. rewrite cz_defs_app in H. destruct g as [g ul']. pose proof (main_group_size_weighted _ _ _ _ _ Hk E). cbn [fst] in H. lia.
       + destruct (compile_def false d codata ul) as [g|e] eqn:E; [|discriminate]. cbn [rbind] in H.
         apply IH in H. rewrite cz_defs_rev_append in H. destruct g as [g ul']. pose proof (def_size _ _ _ _ E). cbn [fst] in H. lia.
   Qed.
@@ -103,24 +163,43 @@ Proof.
   cbn [map fold_right]. destruct H as [H|H]; [subst; lia|]. specialize (IH H). lia.
 Qed.
 
-(* since fix f929eb7 of /repo: for programs in which main is not called.  When main is called the output has one
-   more definition, the entry point  def main<n>(params) { main(params, mu~x. exit x) }  of 4 + #params nodes, which the
-   bound does not count when the parameters do not occur in the source (k = 0); for such programs the size of the
-   output is checked per case by ./check C19 only *)
-Theorem fun2core_size_gen : forall k p c, compile_prog p = Ok c -> calls_main_prog p = false ->
-  cz_defs k (cpdefs c) <= fz_prog k p * f2c_factor k (fun_occ p).
+(* since fix f929eb7 of /repo a program in which main is called gets one more definition, the entry point
+   def main<n>(params) { main(params, mu~x. exit x) }  of 5 + (1 + k) * #params units.  The slack of main's own bound pays
+   for all of it but the #params argument variables when k = 0 (the parameters of a definition are not nodes of the
+   source): additive term entry_params p (Model/SizeFun.v; 0 when main is not called); none for k >= 1 *)
+Lemma defs_factor : forall k p l, (forall d, In d l -> In d (fcpdefs p)) ->
+  nsum (fun d => fz_def k d * Qd k d) l <= nsum (fz_def k) l * f2c_factor k (fun_occ p).
 Proof.
-  intros k p c H Hncm. unfold compile_prog, compile_prog_gen in H. rewrite Hncm in H.
+  intros k p. induction l as [|d r IH]; intros Hin; [cbn [nsum]; lia|]. rewrite !nsum_cons, N.mul_add_distr_r.
+  apply N.add_le_mono; [|apply IH; intros d' Hd'; apply Hin; right; exact Hd'].
+  apply N.mul_le_mono_l. rewrite Qd_factor. apply f2c_factor_mono. apply fun_occ_def_le. apply Hin. left. reflexivity.
+Qed.
+Theorem fun2core_size_gen : forall k p c, compile_prog p = Ok c ->
+  cz_defs k (cpdefs c) <= fz_prog k p * f2c_factor k (fun_occ p) + entry_params p.
+Proof.
+  intros k p c H. unfold compile_prog, compile_prog_gen in H.
   match type of H with rbind ?e _ = _ => destruct e as [defs|e0] eqn:E; [|discriminate] end.
   cbn [rbind] in H. inversion H; subst; clear H. cbn [cpdefs].
   apply defs_size with (k := k) in E. cbn [cz_defs] in E. eapply N.le_trans; [exact E|]. clear E.
-  unfold fz_prog. rewrite !N.add_0_l.
-  assert (G : forall l, (forall d, In d l -> In d (fcpdefs p)) ->
-              nsum (fun d => fz_def k d * Qd k d) l <= nsum (fz_def k) l * f2c_factor k (fun_occ p)).
-  { induction l as [|d r IH]; intros Hin; [cbn [nsum]; lia|]. rewrite !nsum_cons, N.mul_add_distr_r.
-    apply N.add_le_mono; [|apply IH; intros d' Hd'; apply Hin; right; exact Hd'].
-    apply N.mul_le_mono_l. rewrite Qd_factor. apply f2c_factor_mono. apply fun_occ_def_le. apply Hin. left. reflexivity. }
-  apply G. auto.
+  unfold fz_prog, entry_params. rewrite !N.add_0_l. apply N.add_le_mono_r. apply defs_factor. auto.
+Qed.
+Theorem fun2core_size_gen_weighted : forall k p c, 1 <= k -> compile_prog p = Ok c ->
+  cz_defs k (cpdefs c) <= fz_prog k p * f2c_factor k (fun_occ p).
+Proof.
+  intros k p c Hk H. unfold compile_prog, compile_prog_gen in H.
+  match type of H with rbind ?e _ = _ => destruct e as [defs|e0] eqn:E; [|discriminate] end.
+  cbn [rbind] in H. inversion H; subst; clear H. cbn [cpdefs].
+  apply defs_size_weighted with (k := k) in E; [|exact Hk]. cbn [cz_defs] in E. eapply N.le_trans; [exact E|]. clear E.
+  unfold fz_prog. rewrite !N.add_0_l. apply defs_factor. auto.
+Qed.
+Lemma entry_params_ncm : forall p, calls_main_prog p = false -> entry_params p = 0.
+Proof. intros p H. unfold entry_params. rewrite H. reflexivity. Qed.
+(* the additive term is at most the weighted source size (which counts the parameters of every definition) *)
+Lemma entry_params_le : forall p, entry_params p <= f_wprog p.
+Proof.
+  intros p. unfold entry_params, f_wprog, fz_prog. destruct (calls_main_prog p); [|lia].
+  induction (fcpdefs p) as [|d r IH]; [cbn [nsum]; lia|]. rewrite !nsum_cons.
+  apply N.add_le_mono; [|exact IH]. unfold main_params, fz_def. destruct (String.eqb (fdname d) "main"); lia.
 Qed.
 
 (* ---------- the instance k = 0 is the node count of Lang/FunSyn.v ---------- *)
@@ -194,26 +273,26 @@ Proof.
 Qed.
 
 (* ---------- the statements of Props/C19.v ---------- *)
-Theorem fun2core_size_nodes : forall p c, compile_prog p = Ok c -> calls_main_prog p = false ->
-  size_cprog c <= size_fcprog p * (10 + 2 * fun_occ p).
+Theorem fun2core_size_nodes : forall p c, compile_prog p = Ok c ->
+  size_cprog c <= size_fcprog p * (10 + 2 * fun_occ p) + entry_params p.
 Proof.
-  intros p c H Hncm. rewrite <- cz0_prog, <- fz0_prog. eapply N.le_trans; [apply fun2core_size_gen; [exact H | exact Hncm]|].
-  apply N.mul_le_mono_l. unfold f2c_factor. lia.
+  intros p c H. rewrite <- cz0_prog, <- fz0_prog. eapply N.le_trans; [apply fun2core_size_gen; exact H|].
+  apply N.add_le_mono_r. apply N.mul_le_mono_l. unfold f2c_factor. lia.
 Qed.
-Theorem fun2core_size_weighted : forall p c, compile_prog p = Ok c -> calls_main_prog p = false ->
+Theorem fun2core_size_weighted : forall p c, compile_prog p = Ok c ->
   c_wprog c <= f_wprog p * (12 + 3 * fun_occ p).
 Proof.
-  intros p c H Hncm. rewrite <- cz1_prog. unfold f_wprog. eapply N.le_trans; [apply fun2core_size_gen; [exact H | exact Hncm]|].
+  intros p c H. rewrite <- cz1_prog. unfold f_wprog. eapply N.le_trans; [apply fun2core_size_gen_weighted; [lia | exact H]|].
   apply N.mul_le_mono_l. unfold f2c_factor. lia.
 Qed.
-Theorem fun2core_size_quadratic : forall p c, compile_prog p = Ok c -> calls_main_prog p = false ->
-  size_cprog c <= size_fcprog p * (10 + 2 * size_fcprog p).
+Theorem fun2core_size_quadratic : forall p c, compile_prog p = Ok c ->
+  size_cprog c <= size_fcprog p * (10 + 2 * size_fcprog p) + entry_params p.
 Proof.
-  intros p c H Hncm. eapply N.le_trans; [apply fun2core_size_nodes; [exact H | exact Hncm]|].
-  apply N.mul_le_mono_l. pose proof (fun_occ_le_size p). lia.
+  intros p c H. eapply N.le_trans; [apply fun2core_size_nodes; exact H|].
+  apply N.add_le_mono_r. apply N.mul_le_mono_l. pose proof (fun_occ_le_size p). lia.
 Qed.
-Lemma f2c_bound_nodes_eq : forall p, f2c_bound_nodes p = size_fcprog p * (10 + 2 * fun_occ p).
-Proof. intros. unfold f2c_bound_nodes, f2c_factor. f_equal. lia. Qed.
+Lemma f2c_bound_nodes_eq : forall p, f2c_bound_nodes p = size_fcprog p * (10 + 2 * fun_occ p) + entry_params p.
+Proof. intros. unfold f2c_bound_nodes, f2c_factor. f_equal. f_equal. lia. Qed.
 Lemma f2c_bound_weighted_eq : forall p, f2c_bound_weighted p = f_wprog p * (12 + 3 * fun_occ p).
 Proof. intros. unfold f2c_bound_weighted, f2c_factor. f_equal. lia. Qed.
 
@@ -239,10 +318,10 @@ Proof.
   cbn [forallb] in H. apply andb_true_iff in H as [H1 H2]. cbn [map fold_right].
   pose proof (occ_scoped_def_le d H1). specialize (IH H2). lia.
 Qed.
-Theorem fun2core_size_scoped : forall p c, compile_prog p = Ok c -> calls_main_prog p = false -> occ_scoped p = true ->
-  size_cprog c <= size_fcprog p * (10 + 2 * fun_tb p) /\ c_wprog c <= f_wprog p * (12 + 3 * fun_tb p).
+Theorem fun2core_size_scoped : forall p c, compile_prog p = Ok c -> occ_scoped p = true ->
+  size_cprog c <= size_fcprog p * (10 + 2 * fun_tb p) + entry_params p /\ c_wprog c <= f_wprog p * (12 + 3 * fun_tb p).
 Proof.
-  intros p c H Hncm S. pose proof (occ_scoped_le p S) as L. split.
-  - eapply N.le_trans; [apply fun2core_size_nodes; [exact H | exact Hncm]|]. apply N.mul_le_mono_l. lia.
-  - eapply N.le_trans; [apply fun2core_size_weighted; [exact H | exact Hncm]|]. apply N.mul_le_mono_l. lia.
+  intros p c H S. pose proof (occ_scoped_le p S) as L. split.
+  - eapply N.le_trans; [apply fun2core_size_nodes; exact H|]. apply N.add_le_mono_r. apply N.mul_le_mono_l. lia.
+  - eapply N.le_trans; [apply fun2core_size_weighted; exact H|]. apply N.mul_le_mono_l. lia.
 Qed.
